@@ -844,10 +844,15 @@ class MultipleRangeStaticProducer(StaticProducer):
                 dataLength += len(self.partBoundary)
                 data.append(self.partBoundary)
                 self.partBoundary = None
+            # A part boundary may have pushed dataLength past bufferSize:
+            # never ask for a negative number of bytes.
             p = self.fileObject.read(
-                min(
-                    self.bufferSize - dataLength,
-                    self._partSize - self._partBytesWritten,
+                max(
+                    0,
+                    min(
+                        self.bufferSize - dataLength,
+                        self._partSize - self._partBytesWritten,
+                    ),
                 )
             )
             self._partBytesWritten += len(p)
